@@ -38,7 +38,10 @@ ASSUMPTIONS = [
 DELETABLE = ("ops", "mid_saves")
 
 SCRATCH_BASE = "/dev/shm" if os.path.isdir("/dev/shm") and os.access("/dev/shm", os.W_OK) else "/var/tmp"
-ODD_TEXT = ("", "åäö", "日本語", "a\tb", "\x00", "x;y", '"quoted"', "back\\slash", " ", "emoji😀", " lead", "{}", "null")
+ODD_TEXT = ("", "åäö", "日本語", "a\tb", "\x00", "x;y", '"quoted"', "back\\slash", " ", "emoji😀", " lead", "{}", "null",
+            # text that means something to JSON dialects, templating or shells (it is just text)
+            "http://example.org/fw", "door /* north */ side", "a//b", "*/", "/*", "# not a comment", "<!-- x -->", "${HOME}", "%(x)s", "\\u0041", "1.0.", " 2.1", "v3.", "NaN", "Infinity", "true",
+            "[1]", '{"a": 1}', "'single'", "trailing,", ",")
 
 
 def budgets(tier: str) -> dict:
@@ -135,6 +138,16 @@ def enumerate_cases(tier: str):
                 yield {"kind": "direct", "registry": small, "legacy_nulls": False, "load_via": via, "final_saves": finals, "unlink_after_mid": unlink}
                 yield {"kind": "hist", "version": "2.1", "ops": [["rx", "1;255;0;0;17;2.1\n"], ["rx", "1;0;0;0;6;t\n"], ["rx", "1;0;1;0;0;20\n"], ["rx", "2;255;0;0;17;2.1\n"]],
                        "load_via": via, "final_saves": finals, "unlink_after_mid": unlink, "mid_saves": [1, 3]}
+    # texts in every text field, one per case: saved and loaded back unchanged
+    for text in ODD_TEXT:
+        ops = [["rx", "1;255;0;0;17;2.1\n"], ["rx", f"1;255;3;0;11;{text}\n"], ["rx", f"1;255;3;0;12;{text}\n"], ["rx", f"1;0;0;0;6;{text}\n"], ["rx", f"1;0;1;0;47;{text}\n"], ["rx", f"2;255;0;0;17;{text}\n"]]
+        yield {"kind": "hist", "version": "2.2", "ops": ops, "load_via": "own", "final_saves": 1}
+    # integer fields changing between two saves by the same object to values with the same hash() (-1/-2, n / n + 2**61-1)
+    M = 2**61 - 1
+    for a, b in ((-1, -2), (-2, -1), (0, M), (1, M + 1), (5, 5 + M), (M, 0), (6, 6 - M)):
+        ops = [["rx", f"1;255;0;0;{a};2.1\n"], ["rx", f"1;0;0;0;{a};d\n"], ["rx", f"1;255;3;0;22;{a}\n"], ["rx", f"1;255;0;0;{b};2.1\n"], ["rx", f"1;0;0;0;{b};d\n"], ["rx", f"1;255;3;0;22;{b}\n"]]
+        yield {"kind": "hist", "version": "2.1", "ops": ops, "load_via": "own", "final_saves": 1, "mid_saves": [2]}
+        yield {"kind": "hist", "version": "2.1", "ops": ops, "load_via": "own", "final_saves": 2, "mid_saves": [0, 1, 2, 3, 4]}
     # a save still in flight (the scheduled one) when the application saves a registry that has grown meanwhile
     for head_start in range(0, 10):
         for grow in (1, 2):
